@@ -92,6 +92,16 @@ static int parseConvertElement(MPT_INTERFACE(convertable) *conv, MPT_TYPE(type) 
 	else if ((len = mpt_convert_string(it->val, type, dest)) < 0) {
 		return len;
 	}
+	/* only white space consumed: nothing was assigned, there is no element */
+	else {
+		int pos = 0;
+		while (pos < len && isspace((unsigned char) it->val[pos])) {
+			++pos;
+		}
+		if (pos == len) {
+			return MPT_ERROR(MissingData);
+		}
+	}
 	/* terminate consumed substring */
 	it->restore = it->val + len;
 	if (it->restore >= it->end) {
